@@ -246,8 +246,12 @@ def corrupt_and_judge(rep, wd, cfg, traces, pick, mutate, expect_names, label):
         for w in vlib.split_trace(tp):
             for i in range(1, len(w)):
                 o = json.loads(w[i])
+                # the state logged by the previous event of the walk (None right after the reset), for pickers that
+                # must know the pre-state; never written back
+                o["_prev"] = json.loads(w[i - 1]).get("st") if i > 1 else None
                 if pick(o):
                     mutate(o)
+                    o.pop("_prev", None)
                     w2 = list(w[:i + 1])
                     w2[i] = json.dumps(o, separators=(",", ":"))
                     p = os.path.join(wd, "selftest-%s.ndjson" % label)
